@@ -19,64 +19,67 @@ Definition C13_out_full : Prop :=
   forall m1 m2, wf_files m1 = true -> wf_files m2 = true ->
     out_preimage m1 = out_preimage m2 -> Permutation m1 m2.
 
-(* ---------- the output digest: the full statement holds on the current code (since fix
-   838760d an unknown digest is hashed as the missing-word marker, so every bytes word of the
-   file section has a fixed length).  The proof stops typechecking if that is undone. ---------- *)
-Theorem C13_out_preimage_injective : C13_out_full.
-Proof. exact out_preimage_injective_full. Qed.
-
-Theorem C13_decode_out_inverts_encode :
-  forall m : list (str * fsig),
-    wf_files m = true -> decode_out Fixed (out_preimage m) = Some (sort_keys m).
-Proof. exact decode_out_ok_full. Qed.
-
-(* ---------- the input digest: C13_inp_full is FALSE on the current code (defect D2b, open known
-   finding, refuted below).  Proved: the full statement under the one extra hypothesis that
-   excludes exactly that ambiguity,
-     env_names_ok c: no tracked environment variable is named like the str word
-                     "__env_overrides__" that opens a (non-empty) override section
-   (an override VALUE equal to the keyword is allowed; the hypothesis is vacuous once that word is
-   a bytes word). ---------- *)
+(* ---------- what is proved on the current code (both defects D2 and D2b are open known
+   findings): the full statements under the extra hypotheses that exclude exactly the two
+   ambiguities of the current encoding.
+   digests_ok md m, for either way md of reading a digest word:
+     md = Fixed:      no file hash of m is unknown   (always true for the inputs the executor passes
+                                                      to from_inp; vacuous once unknown digests are
+                                                      hashed as the missing-word marker)
+     md = Lookahead:  no known digest of m starts with the bytes 75 00 01
+   inp_ok md c = digests_ok md (inputs of c) && env_names_ok c (&& a static shape condition), with
+     env_names_ok c:  no tracked environment variable is named like the str word
+                      "__env_overrides__" that opens a non-empty override section (an override
+                      VALUE equal to the keyword is allowed; vacuous once that word is a bytes word).
+   ---------- *)
 Theorem C13_inp_preimage_injective_partial :
-  forall c1 c2 : cfg,
-    wf c1 = true -> wf c2 = true -> env_names_ok c1 = true -> env_names_ok c2 = true ->
-    inp_preimage c1 = inp_preimage c2 -> cfg_equiv c1 c2.
-Proof. exact inp_preimage_injective_env. Qed.
-
-(* The way the injectivity is proved: a decoder that inverts the encoder up to the order of the
-   supplied association lists. *)
-Theorem C13_decode_inp_inverts_encode :
-  forall c : cfg,
-    wf c = true -> env_names_ok c = true -> decode_inp Fixed (inp_preimage c) = Some (canon c).
-Proof. exact decode_inp_ok_env. Qed.
-
-(* The shape-generic forms (any way md of reading a digest word; they also hold for the encoding
-   before fix 838760d, where digests_ok was a real restriction: Fixed = no unknown file hash,
-   Lookahead = no known digest starting with 75 00 01). *)
-Theorem C13_inp_preimage_injective_partial_modes :
   forall (md : dmode) (c1 c2 : cfg),
     wf c1 = true -> wf c2 = true -> inp_ok md c1 = true -> inp_ok md c2 = true ->
     inp_preimage c1 = inp_preimage c2 -> cfg_equiv c1 c2.
 Proof. exact inp_preimage_injective. Qed.
 
-Theorem C13_out_preimage_injective_modes :
+Theorem C13_out_preimage_injective_partial :
   forall (md : dmode) (m1 m2 : list (str * fsig)),
     wf_files m1 = true -> wf_files m2 = true ->
     digests_ok md m1 = true -> digests_ok md m2 = true ->
     out_preimage m1 = out_preimage m2 -> Permutation m1 m2.
 Proof. exact out_preimage_injective. Qed.
 
-(* C13_inp_full follows for the generated word sequences as soon as the two shape conditions
-   hold; both are computed from gen/GenHash.v.  Today unknown_as_none = true and
-   kw_ovr_is_str = true.  With findings.d/C13-D2b.patch (or C13-D2b-alt.patch, see design.d)
-   applied, "C13_inp_preimage_injective : C13_inp_full" closes with the proof term
-   (C13_inp_full_when_repaired eq_refl eq_refl); the harness compiles that term on every run. *)
+(* The way the injectivity is proved: a decoder that inverts the encoder up to the order of the
+   supplied association lists. *)
+Theorem C13_decode_inp_inverts_encode :
+  forall (md : dmode) (c : cfg),
+    wf c = true -> inp_ok md c = true -> decode_inp md (inp_preimage c) = Some (canon c).
+Proof. exact decode_inp_ok. Qed.
+
+Theorem C13_decode_out_inverts_encode :
+  forall (md : dmode) (m : list (str * fsig)),
+    wf_files m = true -> digests_ok md m = true ->
+    decode_out md (out_preimage m) = Some (sort_keys m).
+Proof. exact decode_out_ok. Qed.
+
+(* The full statements follow for the generated word sequences as soon as the shape conditions
+   hold; both are computed from gen/GenHash.v.  On the current code unknown_as_none = false and
+   kw_ovr_is_str = true (see the refutations below).  On a tree repaired by
+   findings.d/C13-D2.patch and findings.d/C13-D2b.patch (or C13-D2b-alt.patch) they evaluate to
+   true / false and "C13_inp_preimage_injective : C13_inp_full" closes with the proof term
+   (C13_inp_full_when_repaired eq_refl eq_refl), "C13_out_preimage_injective : C13_out_full" with
+   (C13_out_full_when_repaired eq_refl); the harness compiles these two terms on every run and
+   records whether they close (evidence: full_statements_close). *)
 Theorem C13_inp_full_when_repaired :
   unknown_as_none = true -> kw_ovr_is_str = false -> C13_inp_full.
 Proof. exact inp_preimage_injective_when_repaired. Qed.
 
 Theorem C13_out_full_when_repaired : unknown_as_none = true -> C13_out_full.
 Proof. exact out_preimage_injective_when_repaired. Qed.
+
+(* with D2 repaired only, the input digest needs env_names_ok and nothing else *)
+Theorem C13_inp_partial_env_only_when_D2_repaired :
+  unknown_as_none = true ->
+  forall c1 c2 : cfg,
+    wf c1 = true -> wf c2 = true -> env_names_ok c1 = true -> env_names_ok c2 = true ->
+    inp_preimage c1 = inp_preimage c2 -> cfg_equiv c1 c2.
+Proof. exact inp_preimage_injective_env_when_d2_repaired. Qed.
 
 (* ---------- the digests do not depend on the order in which ingredients are supplied ---------- *)
 Theorem C13_inp_order_independent :
@@ -103,10 +106,11 @@ Theorem C13_cfg_equiv_same_finite_maps :
               /\ lookup k (cfg_ovrs c1) = lookup k (cfg_ovrs c2).
 Proof. exact cfg_equiv_same_maps. Qed.
 
-(* ---------- refutations ---------- *)
-(* D2 (fixed by 838760d): while an unknown digest was hashed as the one-byte bytes word b"u" the
-   full statements were false; the premise is false on the current tree, so these two are
-   vacuous now and kept as the record of the witness. *)
+(* ---------- refutations of the full statements on the current encoding.  The premises are
+   computed from gen/GenHash.v and hold today (the harness records unknown_as_none = false,
+   kw_ovr_is_str = true and replays the witnesses on the real functions); they are stated as
+   premises so that this file still compiles once a defect is repaired. ---------- *)
+(* D2 (open): an unknown digest is hashed as the one-byte bytes word b"u". *)
 Theorem C13_out_full_refuted :
   unknown_as_none = false ->
   exists m1 m2, wf_files m1 = true /\ wf_files m2 = true /\ ~ Permutation m1 m2
@@ -183,10 +187,9 @@ Example C13_example_wf :
   /\ decode_out Lookahead (out_preimage (cfg_inps ex_cfg)) = Some (sort_keys (cfg_inps ex_cfg)).
 Proof. vm_compute. repeat split; reflexivity. Qed.
 
-(* an output map with a missing output (unknown hash) is well-formed and decoded in both modes *)
+(* an output map with a missing output (unknown hash) satisfies the Lookahead hypothesis *)
 Example C13_example_unknown_output :
   let m := [ ([111;117;116], mk_fsig unknown_digest 0 0); ([97], mk_fsig ex_digest1 33188 3) ] in
   wf_files m = true /\ digests_ok Lookahead m = true
-  /\ decode_out Lookahead (out_preimage m) = Some (sort_keys m)
-  /\ decode_out Fixed (out_preimage m) = Some (sort_keys m).
+  /\ decode_out Lookahead (out_preimage m) = Some (sort_keys m).
 Proof. vm_compute. repeat split; reflexivity. Qed.
